@@ -69,32 +69,36 @@ structure Cfg where
   props : List String := []
   view : String := "raw"
 
-/-- oracle verdicts for a pure scenario, from the implementation's printed results -/
+/-- oracle verdicts for a pure scenario, from the implementation's printed results:
+    one `V … FAIL` line per failure, or one `V … ok n=<evaluations>` line -/
 def pureVerdicts (cfg : Cfg) (sc : Scenario) (xs : List String) : List String := Id.run do
   let mut out : List String := []
   for prop in cfg.props do
     let mut n := 0
-    let mut bad : Option String := none
+    let mut bad : List String := []
     let mut k := 0
     for op in sc.ops do
       let got := ((xs.getD k "").splitOn " ").drop 2 |> " ".intercalate
-      let r : Option (Option String) :=
+      let r : Option (List String) :=
         match prop, op with
-        | "C16", "rect" :: rest => (rest.mapM String.toNat?).map (fun v => Oracle.C16.check v got)
+        | "C16", "rect" :: rest => (rest.mapM String.toNat?).map (fun v => (Oracle.C16.check v got).toList)
+        | "C14", "color" :: _ => some (Oracle.C14.check op got)
+        | "C03", "setpx" :: _ => some (Oracle.C03.check op got)
+        | "C03", "setone" :: _ => some (Oracle.C03.check op got)
+        | "C13", "alias" :: _ => some (Oracle.C13.check op got)
+        | "C13", "vardisp" :: _ => some (Oracle.C13.check op got)
+        | "C13", "vargrid" :: _ => some (Oracle.C13.check op got)
+        | "C13", "buflen" :: _ => some []
         | _, _ => none
       match r with
       | some res =>
         n := n + 1
-        if bad.isNone then
-          match res with
-          | some f => bad := some s!"{f} op={k}"
-          | none => pure ()
+        bad := bad ++ res.map (fun f => s!"{f} op={k}")
       | none => pure ()
       k := k + 1
     if n > 0 then
-      out := out ++ [match bad with
-        | none => s!"V {sc.id} {prop} ok n={n}"
-        | some f => s!"V {sc.id} {prop} FAIL {f}"]
+      if bad.isEmpty then out := out ++ [s!"V {sc.id} {prop} ok n={n}"]
+      else out := out ++ bad.map (fun f => s!"V {sc.id} {prop} FAIL {f}")
   return out
 
 partial def loop (hs ht : IO.FS.Handle) (cfg : Cfg) (n drift : Nat) : IO (Nat × Nat) := do
